@@ -49,7 +49,7 @@ def _python_memcache_serializer(key, value, pickle_version=None):
 
     elif value_type is int:
         flags |= FLAG_INTEGER
-        value = "%d" % value
+        value = b"%d" % value
 
     else:
         flags |= FLAG_PICKLE
